@@ -238,7 +238,7 @@ func (h *hist) setup() {
 	// margin parameters
 	p := w.app.MarginKeeper.GetParams(w.ctx)
 	p.LeverageMax = h.decChoice("2", "3", "5", "10", "1.5")
-	p.SafetyFactor = h.decChoice("1.05", "1.05", "1.01", "1.3", "1.6", "0.5")
+	p.SafetyFactor = h.decChoice("1.05", "1.05", "1.01", "1.3", "1.6", "0.5", "0", "0", "0.000000000000000001", "1")
 	p.InterestRateMin = h.decChoice("0.005", "0.005", "0", "0.000001", "0.05")
 	p.InterestRateMax = h.decChoice("3", "0.5", "0.01", "1")
 	p.InterestRateIncrease = h.decChoice("0.1", "1", "0.01")
@@ -592,7 +592,7 @@ func (h *hist) opParams() {
 	case 0:
 		p.IncrementalInterestPaymentEnabled = !p.IncrementalInterestPaymentEnabled
 	case 1:
-		p.SafetyFactor = h.decChoice("1.05", "1.3", "1.9", "100", "0.5")
+		p.SafetyFactor = h.decChoice("1.05", "1.3", "1.9", "100", "0.5", "0", "0", "0.000000000000000001", "1", "1.05")
 	case 2:
 		p.InterestRateMax = h.decChoice("3", "1", "0.5")
 		p.InterestRateIncrease = h.decChoice("1", "0.1")
@@ -729,6 +729,24 @@ func (h *hist) directed(kind int) {
 		for !h.opBlock() {
 		}
 		for !h.opBlock() {
+		}
+	case 8: // safety factor exactly 0 (liquidations suspended): a position whose health is pushed below the
+		// shipped default 1.05 by the price is kept by the hook; then tiny, 1, 1.05, 100 at the following boundaries
+		p.LeverageMax = sdk.NewDec(10)
+		p.SafetyFactor = sdk.ZeroDec()
+		p.IncrementalInterestPaymentEnabled = false
+		h.setParams(&p)
+		h.doOpen(t, "rowan", "cusdc", amt("cusdc", true), margintypes.Position_LONG, sdk.NewDec(10))
+		h.doOpen(h.traders[1], "cusdc", "rowan", amt("cusdc", false), margintypes.Position_LONG, sdk.NewDec(20)) // health about 1.04: opens with factor 0
+		h.doOpen(h.traders[2], "ceth", "rowan", amt("ceth", false), margintypes.Position_LONG, sdk.NewDec(2))
+		h.doSwap("cusdc", "rowan", new(big.Int).Quo(h.poolDepth("cusdc", false), big.NewInt(10))) // cusdc cheaper: the first position's health drops below 1
+		for !h.opBlock() {
+		}
+		for _, v := range []string{"0.000000000000000001", "1", "1.05", "100"} {
+			p.SafetyFactor = sdk.MustNewDecFromStr(v)
+			h.setParams(&p)
+			for !h.opBlock() {
+			}
 		}
 	case 5: // every pool at once: positions on both sides of every pool, two epoch boundaries, everything closed
 		// again — a lookup of "the positions of pool X" that also returns those of a pool whose symbol
@@ -872,7 +890,7 @@ func init() {
 			}
 			h := &hist{w: w, out: out, rng: rng, fixedPools: nhist == 4}
 			h.setup()
-			if nhist < 8 {
+			if nhist < 9 {
 				h.directed(nhist)
 				nhist++
 				continue
